@@ -12,7 +12,7 @@ from pyvc import sym
 from pyvc.sym import lift, cfrac_eq, frac_eq
 from pyvc.interp import PyRaise
 from pyvc.oblig import obligation, verify, bounded, Goal, merge
-from .common import stable_rng, quick
+from .common import stable_rng, quick, Frame
 from .C08 import _cmat
 from .C20 import _rmat, _conjT, _meq
 
@@ -259,8 +259,14 @@ def ob_native():
         if sch == "Alamouti":
             n = 2 * int(rr.randint(1, 4))
         x = rr.randn(n) + 1j * rr.randn(n)
+        fr = Frame(x=x, H=H)
         enc = o.encode(x)
-        dec = o.decode(H @ enc)
+        fr.watch(enc=enc)
+        rxs = H @ enc
+        fr.watch(received=rxs)
+        dec = o.decode(rxs)
+        if fr.changed():
+            return {"scheme": sch, "frame": fr.changed()}
         if dec.shape != x.shape or (not (np.abs(dec - x).max() <= 1e-8 * max(1, np.abs(x).max()))):
             return {"scheme": sch, "Nr": Nr, "Nt": Nt, "max error": float(np.abs(dec - x).max()) if dec.shape == x.shape else "shape"}
         uses = enc.shape[1] if enc.ndim == 2 else 1
